@@ -340,9 +340,10 @@ func prefixKeyForRecipientAndHeight(recipient Address, height int64) []byte {
 func PrefixIterator(db dbm.DB, prefix []byte, order string) (dbm.Iterator, error) {
 	switch order {
 	case SortAscending:
-		return db.ReverseIterator(prefix, endKey(prefix))
-	case SortDescending:
+		// the ELEN-encoded height/index keys sort ascending, so a forward scan is the ascending order
 		return db.Iterator(prefix, endKey(prefix))
+	case SortDescending:
+		return db.ReverseIterator(prefix, endKey(prefix))
 	default:
 		return nil, fmt.Errorf("sorting order: %v not supported", order)
 	}
